@@ -64,6 +64,8 @@ Section ListProofs.
     - inversion H as [[H1 H2]]. destruct (pop l _) as [[x l2]|] eqn:E; cbn in H1; [|discriminate].
       inversion H1; subst. eapply Forall_pop; eassumption.
     - inversion H; subst. apply Forall_imul. exact F.
+    - destruct (slice_step sl =? 0); discriminate H.
+    - discriminate H.
   Qed.
 
   (* ... and has exactly the length the TraitListObject override announced *)
@@ -111,6 +113,8 @@ Section ListProofs.
     - inversion AN; subst. inversion H as [[H1 H2]].
       destruct (pop l _) as [[x l2]|] eqn:E; cbn in H1; [|discriminate]. inversion H1; subst.
       pose proof (pop_length l l' _ x E). lia.
+    - inversion AN; subst. inversion H; subst. apply imul_length.
+    - discriminate AN.
     - discriminate AN.
   Qed.
 
@@ -120,9 +124,7 @@ Section ListProofs.
      exists l' r alt, builtin vld l o = (Ok (l', r), alt) /\ o_after (tl_step vld l o) = l') \/
     (exists e, o_out (tl_step vld l o) = Raise e /\ o_after (tl_step vld l o) = l /\ o_events (tl_step vld l o) = []).
   Proof.
-    destruct (xkey o) eqn:X.
-    { right. destruct o; try discriminate X; exists TypeError; cbn; auto. }
-    destruct (step_refines vld l o X) as (HO & HA & _). cbv zeta in *.
+    destruct (step_refines vld l o) as (HO & HA & _). cbv zeta in *.
     destruct (o_out (tl_step vld l o)) as [[]|e] eqn:EO.
     - left. split; [reflexivity|]. destruct (builtin vld l o) as [[[l' r]|e'] alt]; cbn in *; [|discriminate].
       exists l', r, alt. auto.
@@ -216,6 +218,7 @@ Section ListLawProofs.
     - destruct (vld v) as [y|] eqn:V; [|discriminate]. cbn. rewrite (Hacc v y V). reflexivity.
     - destruct (vld_all vld vs) as [ys|] eqn:V; [|discriminate]. eapply vld_all_acc; exact V.
     - destruct (vld_all vld vs) as [ys|] eqn:V; [|discriminate]. eapply vld_all_acc; exact V.
+    - destruct (vld v) as [y|] eqn:V; [|discriminate]. cbn. rewrite (Hacc v y V). reflexivity.
     - destruct (vld v) as [y|] eqn:V; [|discriminate]. cbn. rewrite (Hacc v y V). reflexivity.
   Qed.
 
